@@ -229,7 +229,7 @@ def facts_at(fn, block):
         if tv is None:
             # discriminant switches: record variant facts
             if c[0] == 'discr':
-                res.append(('variant', c[1], c[2], vs, tb))
+                res.append(('variant', c[1], c[2], vs, tb, d))
             continue
         neg = False
         while c[0] == 'unop' and c[1] == 'Not':
@@ -241,9 +241,9 @@ def facts_at(fn, block):
             op = c[1]
             if not tv:
                 op = {'Lt': 'Ge', 'Le': 'Gt', 'Gt': 'Le', 'Ge': 'Lt', 'Eq': 'Ne', 'Ne': 'Eq'}[op]
-            res.append((op, c[2], c[3], tb))
+            res.append((op, c[2], c[3], tb, d))
         elif c[0] == 'call':
-            res.append(('callbool', c, tv, tb))
+            res.append(('callbool', c, tv, tb, d))
     return res
 
 
